@@ -393,7 +393,7 @@ class Parser:
                 pat = self.pattern()
                 if self.at("if"): raise Unsupported("match guard")
                 self.eat("=>")
-                body = self.expr()
+                body = self.block() if self.at("{") else self.expr()      # a block arm is not followed by postfix operators
                 arms.append((pat, body))
                 if self.at(","): self.eat(",")
             self.eat("}")
@@ -434,6 +434,17 @@ class Parser:
         if k == "ident":
             segs = self.path()
             if self.at("!"):
+                if segs[-1] in ("unreachable", "panic", "unimplemented", "todo") and self.peek(1)[1] == "(":
+                    self.eat("!")
+                    depth = 0
+                    while True:
+                        v2 = self.eat()[1]
+                        if v2 == "(": depth += 1
+                        elif v2 == ")":
+                            depth -= 1
+                            if depth == 0: break
+                        elif v2 == "": raise Unsupported("unterminated macro arguments")
+                    return ("diverge", segs[-1])
                 raise Unsupported("macro invocation %s!" % "::".join(segs))
             if self.at("{") and not nostruct and segs[-1][0].isupper():
                 self.eat("{")
@@ -472,6 +483,8 @@ def parse_body(body_txt):
 
 def T(t): return ("T", t)
 def B(b): return ("B", b)
+ENUM_TYPES = ("Ordering", "Slope", "Peak")
+ENUM_COQ = {"Rising": "Rising", "None": "Flat", "Falling": "Falling", "Max": "PMax", "Min": "PMin", "Less": "Lt", "Equal": "Eq", "Greater": "Gt"}
 
 
 def merge(c, a, b, strict=False):
@@ -560,6 +573,15 @@ class Sym:
         self.divmode = divmode
         self.divs = []          # divisors in evaluation order (checked mode)
         self.subs = subs or {}  # name -> (body AST, [parameter names]) of translated inner filters
+        self.fns = {}           # "Type::fn" -> (body AST, [parameter names]): associated functions executed inline
+        self.dyn_vars = []      # (name, Gallina type) of variables introduced by calls into abstract components
+        self.dyn_hyps = []      # hypotheses `call = result pattern` about those calls, in evaluation order
+        self.world = None       # name of the current "world" variable threaded through abstract stage calls
+        self.counter = 0
+
+    def fresh(self):
+        self.counter += 1
+        return self.counter
 
     # ---- lvalues: paths of field accesses rooted at a variable
     def lpath(self, e):
@@ -575,6 +597,9 @@ class Sym:
     def store(self, env, e, v):
         root, path = self.lpath(e)
         cur = env.get(root)
+        if cur[0] == "ref":
+            root, path = cur[1], cur[2] + path
+            cur = env.get(root)
         env.set_existing(root, self.updated(cur, path, v))
 
     def updated(self, cur, path, v):
@@ -607,6 +632,9 @@ class Sym:
             raise Unsupported("tuple-struct pattern %s" % name)
         if k == "ppath":
             name = pat[1][-1]
+            if len(pat[1]) >= 2 and pat[1][-2] in ENUM_TYPES:
+                if v[0] != "enum": raise Unsupported("enum pattern %s against a value of kind %s" % ("::".join(pat[1]), v[0]))
+                return {} if v[1] == name else None
             if name == "None":
                 if v[0] != "opt": raise Unsupported("None pattern against a value of unknown shape (%s)" % v[0])
                 return {} if v[1] is None else None
@@ -634,6 +662,10 @@ class Sym:
         env = Env(env)
         for st in blk[1]:
             if st[0] == "let":
+                if st[1][0] == "pid" and st[2][0] == "mcall" and st[2][2] == "state_mut" and not st[2][3]:
+                    root, path = self.lpath(st[2])
+                    env.vars[st[1][1]] = ("ref", root, path)
+                    continue
                 v = self.ev(st[2], env)
                 b = self.pmatch(st[1], v)
                 if b is None: raise Unsupported("refutable let pattern does not match")
@@ -676,10 +708,12 @@ class Sym:
             if len(segs) == 1:
                 if segs[0] == "None": return ("opt", None)
                 if segs[0] in ("true", "false"): return B(("btrue",) if segs[0] == "true" else ("bfalse",))
-                return env.get(segs[0])
+                val = env.get(segs[0])
+                if val[0] == "ref": return lookup(env.get(val[1]), val[2])
+                return val
             if segs[-1] in ("zero", "one") and len(segs) == 2: return ("fn", segs[-1])
             if segs[-1] == "None": return ("opt", None)
-            if segs[0] in ("Ordering", "Slope", "Peak") or (len(segs) >= 2 and segs[-2] in ("Ordering", "Slope", "Peak")): return ("enum", segs[-1])
+            if segs[0] in ENUM_TYPES or (len(segs) >= 2 and segs[-2] in ENUM_TYPES): return ("enum", segs[-1])
             raise Unsupported("path %s" % "::".join(segs))
         if k == "field":
             v = self.ev(e[1], env)
@@ -728,26 +762,47 @@ class Sym:
             v = self.ev(e[1], env)
             if v[0] == "cmp":          # Option<Ordering> of a partial comparison: a four-way symbolic split
                 return self.match_cmp(v, e[2], env)
-            for pat, body in e[2]:
-                b = self.pmatch(pat, v)
-                if b is not None:
-                    inner = Env(env)
-                    inner.vars.update(b)
-                    return self.ev(body, inner)
-            raise Unsupported("no match arm applies")
+            if v[0] == "cmpsplit":     # a value that already depends on an earlier comparison: match in each of its branches
+                snap = env.snapshot()
+                outs = []
+                for comp in v[3:7]:
+                    outs.append(self.match_value(comp, e[2], env))
+                    if env.snapshot() != snap: raise Unsupported("match over a comparison-dependent value changes the environment")
+                return ("cmpsplit", v[1], v[2]) + tuple(outs)
+            return self.match_value(v, e[2], env)
         if k == "return":
             raise Return(self.ev(e[1], env) if e[1] is not None else ("unit",))
         if k == "loop": return self.loop(e, env)
         if k == "for": return self.forloop(e, env)
         if k == "call":
             f = e[1]
+            if f[0] == "path" and "::".join(f[1]) in self.fns:
+                ast, pnames = self.fns["::".join(f[1])]
+                args = [self.ev(a, env) for a in e[2]]
+                if len(args) != len(pnames): raise Unsupported("arity of the call of %s" % "::".join(f[1]))
+                inner = Env()
+                for pn, a in zip(pnames, args): inner.vars[pn] = a
+                try:
+                    return self.block(ast, inner)
+                except Return as r:
+                    return r.value
             if f[0] == "path" and f[1] == ["Self", "with_config"] and len(e[2]) == 1: return ("struct", {"config": self.ev(e[2][0], env)})
             if f[0] == "path" and f[1][-1] == "Some" and len(e[2]) == 1: return ("opt", self.ev(e[2][0], env))
             if f[0] == "path" and f[1][-1] in ("zero", "one") and not e[2]: return T(("zero",) if f[1][-1] == "zero" else ("one",))
             if f[0] == "path" and f[1][-1] in ("from", "into") and len(e[2]) == 1: return self.convert(self.ev(e[2][0], env))
             raise Unsupported("call of %s" % (f[1] if f[0] == "path" else f[0]))
         if k == "mcall": return self.mcall(e, env)
+        if k == "diverge": raise Unsupported("execution reaches %s!()" % e[1])
         raise Unsupported("expression kind %s" % k)
+
+    def match_value(self, v, arms, env):
+        for pat, body in arms:
+            b = self.pmatch(pat, v)
+            if b is not None:
+                inner = Env(env)
+                inner.vars.update(b)
+                return self.ev(body, inner)
+        raise Unsupported("no match arm applies")
 
     def loop(self, e, env):
         """the one loop shape of the code base: push the same value into a ring buffer until something is evicted"""
@@ -858,6 +913,10 @@ class Sym:
             raise Unsupported("state_mut on a value without a state field")
         if name == "iter_mut": return self.ev(recv_e, env)
         recv = self.ev(recv_e, env)
+        if recv[0] == "L" and name == "push" and len(args_e) == 1:
+            a = self.ev(args_e[0], env)
+            self.store(env, recv_e, ("L", "(%s ++ [%s])" % (recv[1], coq_V(a))))
+            return ("unit",)
         if recv[0] == "L":
             if name == "rev" and not args_e: return ("L", "(rev %s)" % recv[1])
             if name == "zip" and len(args_e) == 1:
@@ -913,17 +972,21 @@ class Sym:
                 b = self.pmatch(f[1][1][0], recv[1])
                 inner.vars.update(b)
                 return ("opt", self.ev(f[1][2], inner))
-        if recv[0] == "struct" and "__sub" in recv[1] and name in ("filter", "sink"):
+        if recv[0] == "struct" and "__sub" in recv[1] and ((recv[1]["__sub"][1], name) in self.subs or name in ("filter", "sink")):
             # a call into an inner filter whose own body is translated from its source: execute that body
             sub = recv[1]["__sub"][1]
-            if sub not in self.subs: raise Unsupported("inner filter %s is not translated" % sub)
-            ast, pnames = self.subs[sub]
+            if (sub, name) in self.subs: ast, pnames = self.subs[(sub, name)]
+            elif sub in self.subs: ast, pnames = self.subs[sub]
+            else: raise Unsupported("inner filter %s is not translated" % sub)
             inner = Env()
             inner.vars["self"] = recv
             args = [self.ev(a, env) for a in args_e]
             if len(args) != len(pnames): raise Unsupported("arity of the inner filter call")
             for pn, a in zip(pnames, args): inner.vars[pn] = a
-            ret = self.block(ast, inner)
+            try:
+                ret = self.block(ast, inner)
+            except Return as r:
+                ret = r.value
             self.store(env, recv_e, inner.get("self"))
             return ret
         if recv[0] == "obj":
@@ -988,6 +1051,10 @@ def coq_V(v):
     if k == "raw": return v[1]
     if k == "unit": return "tt"
     if k in ("L", "L2"): return v[1]
+    if k == "obj": return str(v[2][0] if isinstance(v[2], tuple) else v[2])
+    if k == "enum":
+        if v[1] not in ENUM_COQ: raise Unsupported("enum value %s" % v[1])
+        return ENUM_COQ[v[1]]
     if k == "cmpsplit":
         return "(match acmp A %s %s with Some Lt => %s | Some Eq => %s | Some Gt => %s | None => %s end)" % (
             coq_T(v[1]), coq_T(v[2]), coq_V(v[3]), coq_V(v[4]), coq_V(v[5]), coq_V(v[6]))
